@@ -409,7 +409,11 @@ ForeignReceiveBad(sl, dest) ==
   /\ \E m \in net : m.sl = sl /\ m.stage = "S1"
   /\ AdvCount < MaxAdv
   /\ (dest = "" \/ dest \in DOMAIN st.w["w1"].labels)
-  /\ Upd(BumpChild(st, "w1"), hv, AdvMark, [ev |-> "receive", w |-> "w1", sl |-> sl, dest |-> dest, tamper |-> "feat1", mok |-> FALSE])
+  \* (an expired slate is refused before anything else: no key is taken)
+  /\ LET m == CHOOSE m \in net : m.sl = sl /\ m.stage = "S1"
+         exp == m.ttl # 0 /\ st.w["w1"].idx[st.w["w1"].active].confh >= m.ttl IN
+     Upd(IF exp THEN st ELSE BumpChild(st, "w1"), hv, AdvMark,
+         [ev |-> "receive", w |-> "w1", sl |-> sl, dest |-> dest, tamper |-> "feat1", mok |-> FALSE])
 \* a coinbase request naming the key of an existing record
 ForeignCoinbaseKey(k) ==
   /\ k \in DOMAIN st.w["w1"].outs
